@@ -219,7 +219,16 @@ func init() {
 		return Term{"(constUnaryOp " + asTerm(a[0]).S + " " + asTerm(a[1]).S + " " + asTerm(a[2]).S + ")", SInt}, true
 	}
 	libModels["constant.Compare"] = func(x *Exec, st *State, e *ast.CallExpr, a []Value, _ []types.Type) (Value, bool) {
-		return x.uf("constCompare", SBool, asTerm(a[0]), asTerm(a[1]), asTerm(a[2])), true
+		r := x.uf("constCompare", SBool, asTerm(a[0]), asTerm(a[1]), asTerm(a[2]))
+		if !x.underBinder(r.S) {
+			// T4, for the operands of this application: Compare on two Int constants compares their values under
+			// the token; on two Bool or two String constants, == and != compare their values
+			c0, tok, c1 := asTerm(a[0]).S, asTerm(a[1]).S, asTerm(a[2]).S
+			st.assume("(=> (and (= (constKind " + c0 + ") 3) (= (constKind " + c1 + ") 3)) (= " + r.S + " (tokCmpInt " + tok + " (constInt " + c0 + ") (constInt " + c1 + "))))")
+			st.assume("(=> (and (= (constKind " + c0 + ") 1) (= (constKind " + c1 + ") 1) (or (= " + tok + " 39) (= " + tok + " 44))) (= " + r.S + " (= (= (constBoolVal " + c0 + ") (constBoolVal " + c1 + ")) (= " + tok + " 39))))")
+			st.assume("(=> (and (= (constKind " + c0 + ") 2) (= (constKind " + c1 + ") 2) (or (= " + tok + " 39) (= " + tok + " 44))) (= " + r.S + " (= (= (constStringVal " + c0 + ") (constStringVal " + c1 + ")) (= " + tok + " 39))))")
+		}
+		return r, true
 	}
 	libModels["constant.Shift"] = func(x *Exec, st *State, e *ast.CallExpr, a []Value, _ []types.Type) (Value, bool) {
 		return Term{"(constShift " + asTerm(a[0]).S + " " + asTerm(a[1]).S + " " + asTerm(a[2]).S + ")", SInt}, true
